@@ -33,6 +33,7 @@ import (
 	"path/filepath"
 	"reflect"
 	"regexp"
+	"runtime"
 	"runtime/debug"
 	"sort"
 	"strings"
@@ -145,6 +146,11 @@ type server struct {
 	refs     map[string]map[string]string // fresh-history behaviour per Ref
 	st       stats
 	restores int
+	// every sync.Pool reachable from a package-level variable: invisible to the frame condition
+	// (contents not walkable), emptied between two sequences so that a pooled object cannot
+	// travel from one sequence into the next
+	pools   map[string]*sync.Pool
+	drained int
 }
 
 func (s *server) digestGlobals() map[string]string {
@@ -153,12 +159,21 @@ func (s *server) digestGlobals() map[string]string {
 		d.Root(g.root, g.ptr)
 	}
 	s.st.merge(d)
+	if s.pools == nil {
+		s.pools = map[string]*sync.Pool{}
+	}
+	for k, p := range d.Pools {
+		s.pools[k] = p
+	}
 	return d.Leaves
 }
 
 func (s *server) restore() bool {
 	for i, g := range s.gv {
 		s.snaps[i].Restore(g.ptr)
+	}
+	for _, p := range s.pools {
+		s.drained += world.DrainPool(p)
 	}
 	s.restores++
 	paths, _ := world.Diff(s.pristine, s.digestGlobals())
@@ -628,6 +643,11 @@ func TestServe(t *testing.T) {
 		t.Skip("worker mode only")
 	}
 	debug.SetGCPercent(400) // a sequence allocates a whole world and drops it: fewer collections, small heap anyway
+	// One P: a sync.Pool keeps a private slot per P, so only on a single P does Get return what the
+	// last Put stored (an object parked in another P's private slot is out of reach) - a pooled
+	// object that went back dirty then deterministically meets the next user, and DrainPool is
+	// complete. A sequence is sequential anyway; the parallelism is across worker processes.
+	runtime.GOMAXPROCS(1)
 	world.Install()
 	s := &server{t: t, gv: globals(), st: stats{Skipped: map[string]int{}, Guarded: map[string]int{}, Walked: map[string]int{}}}
 	for _, g := range s.gv {
@@ -673,6 +693,7 @@ func TestServe(t *testing.T) {
 			}
 			send(reply{Info: map[string]any{"package_level_variables_tracked": perPkg, "not_walked_types": s.st.Skipped, "sync_containers_walked": s.st.Walked,
 				"mutex_guarded_struct_types_not_compared": s.st.Guarded, "restores_verified": s.restores,
+				"package_level_sync_pools": world.SortedKeys(s.pools), "pooled_objects_dropped_between_sequences": s.drained,
 				"digest_leaves_of_package_level_state": len(s.pristine)}})
 			continue
 		}
@@ -693,12 +714,27 @@ type child struct {
 	in     io.WriteCloser
 	out    *bufio.Reader
 	stderr *bytes.Buffer
+	dead   bool
 }
 
 var (
 	childMu  sync.Mutex
-	children []*child
+	children []*child // every child started and not yet harvested for good
+	idle     []*child // children whose part has ended: taken over by the workers of the next part
 )
+
+// takeChild hands out an idle child of an earlier part, else starts a new one.
+func takeChild() (*child, error) {
+	childMu.Lock()
+	if n := len(idle); n > 0 {
+		ch := idle[n-1]
+		idle = idle[:n-1]
+		childMu.Unlock()
+		return ch, nil
+	}
+	childMu.Unlock()
+	return startChild()
+}
 
 func startChild() (*child, error) {
 	cmd := exec.Command(os.Args[0], "-test.run", "^TestServe$", "-test.timeout", "0", "-test.count", "1")
@@ -748,6 +784,10 @@ func (ch *child) eval(req request) (reply, error) {
 }
 
 func (ch *child) stop() {
+	if ch.dead {
+		return
+	}
+	ch.dead = true
 	ch.in.Close()
 	ch.cmd.Process.Kill()
 	ch.cmd.Wait()
@@ -758,7 +798,7 @@ func stopChildren() {
 	for _, ch := range children {
 		ch.stop()
 	}
-	children = nil
+	children, idle = nil, nil
 	childMu.Unlock()
 }
 
@@ -777,7 +817,7 @@ func evaluator(c *engine.Check) func(request) reply {
 		for attempt := 0; attempt < 2; attempt++ {
 			if ch == nil {
 				var err error
-				if ch, err = startChild(); err != nil {
+				if ch, err = takeChild(); err != nil {
 					c.Internal("cannot start worker child: " + err.Error())
 					return reply{Rule: "internal", Outcome: "internal"}
 				}
@@ -812,16 +852,28 @@ func evaluator(c *engine.Check) func(request) reply {
 
 var info = struct {
 	skipped, guarded, walked map[string]int
-	restores, kids           int
+	restores, kids, drained  int
 	vars, leaves             any
-}{skipped: map[string]int{}, guarded: map[string]int{}, walked: map[string]int{}}
+	pools                    map[string]bool
+}{skipped: map[string]int{}, guarded: map[string]int{}, walked: map[string]int{}, pools: map[string]bool{}}
 
-// harvest merges the bookkeeping of every live worker child into info and stops
-// the children (called after each part; the next part starts fresh processes).
-func harvest() {
+// harvest is called after each part (no worker is running). Not final: the live children become
+// idle and are taken over by the workers of the next part. Final: the bookkeeping of every child
+// is merged into info and the children are stopped.
+func harvest(final bool) {
 	childMu.Lock()
+	if !final {
+		idle = idle[:0]
+		for _, ch := range children {
+			if !ch.dead {
+				idle = append(idle, ch)
+			}
+		}
+		childMu.Unlock()
+		return
+	}
 	cs := children
-	children = nil
+	children, idle = nil, nil
 	childMu.Unlock()
 	sum := func(dst map[string]int, src any) {
 		if m, ok := src.(map[string]any); ok {
@@ -833,6 +885,10 @@ func harvest() {
 		}
 	}
 	for _, ch := range cs {
+		info.kids++
+		if ch.dead {
+			continue
+		}
 		if r, err := ch.eval(request{Oracle: "info"}); err == nil && r.Info != nil {
 			sum(info.skipped, r.Info["not_walked_types"])
 			sum(info.guarded, r.Info["mutex_guarded_struct_types_not_compared"])
@@ -840,10 +896,17 @@ func harvest() {
 			if f, ok := r.Info["restores_verified"].(float64); ok {
 				info.restores += int(f)
 			}
+			if f, ok := r.Info["pooled_objects_dropped_between_sequences"].(float64); ok {
+				info.drained += int(f)
+			}
+			if l, ok := r.Info["package_level_sync_pools"].([]any); ok {
+				for _, x := range l {
+					info.pools[fmt.Sprint(x)] = true
+				}
+			}
 			info.vars = r.Info["package_level_variables_tracked"]
 			info.leaves = r.Info["digest_leaves_of_package_level_state"]
 		}
-		info.kids++
 		ch.stop()
 	}
 }
@@ -856,6 +919,8 @@ func collectInfo(ops []string) map[string]any {
 		"sync_containers_walked":                        info.walked,
 		"mutex_guarded_struct_types_not_compared":       info.guarded,
 		"restores_verified":                             info.restores,
+		"package_level_sync_pools": map[string]any{"found": world.SortedKeys(info.pools), "pooled_objects_dropped_between_sequences": info.drained,
+			"note": "the contents of a sync.Pool cannot be listed (no iteration, per-P caches): the frame condition does NOT see a pooled object. Whether a pooled object comes back dirty is decided by the differential oracle alone (aspects request:*: the requests every other instance sends after the history, compared with a fresh history); the worker processes run on one P so that Get returns what the last Put stored, and every pool found below a package-level variable is emptied between two sequences"},
 		"worker_children":                               info.kids,
 		"worker_children_replaced_after_failed_restore": restoreFailures.n,
 		"operations":                                    ops,
@@ -876,14 +941,24 @@ func TestCheck(t *testing.T) {
 	for _, o := range world.Ops {
 		names = append(names, o.Name)
 	}
-	c.SetRule(fmt.Sprintf("E1 full products, one per length 0..%d: oracle{frame,diff} x every sequence of operations over an alphabet of %d operations (a sequence extending a violating sequence is decided by that prefix and not re-executed; the enumeration is prefix-closed and shortest-first, so in a sequence of length >=2 only the last step is judged - its prefix was judged as a sequence of its own; a replay judges every step), each sequence replayed on a fresh world in a worker process whose package-level state is restored from a pristine snapshot and verified by digest before the sequence; distinct = (oracle/kind of last op, outcome class)", depth, len(world.Ops)))
+	nFault := 0
+	for _, o := range world.Ops {
+		if strings.HasPrefix(o.Kind, "fault-") {
+			nFault++
+		}
+	}
+	c.SetRule(fmt.Sprintf("E1 full products, one per length 0..%d: oracle{frame,diff} x every sequence of operations over an alphabet of %d regular operations; plus FAULT PLUS HISTORY: %d failing operations - failing variants of the client-side calls (helper x kind of failure {bad-url, unencodable, transport-error, non-2xx, cancelled} x {package default, caller-supplied} client x {secret, private_key_jwt}) and, per router, every request family under a storage fault at every storage method it calls x {opaque error, *oidc.Error} -, every one alone (fault-sequences-len1) and as (fault, op) / (op, fault) with every regular operation (quick: the client variants that fail while the request is built - default client, secret - and the two storage-fault operations; thorough: all, every (fault, fault) pair, and every (op, fault, op) triple over the quick selection) (a sequence extending a violating sequence is decided by that prefix and not re-executed; the enumeration is prefix-closed and shortest-first, so in a sequence of length >=2 only the last step is judged - its prefix was judged as a sequence of its own; a replay judges every step), each sequence replayed on a fresh world in a worker process whose package-level state is restored from a pristine snapshot and verified by digest before the sequence; distinct = (oracle/kind of last op, outcome class)", depth, len(world.Ops)-nFault, nFault))
 	c.Assume(
 		"reduction for 'any number of goroutines': a data race on library-owned state needs a write; if no operation of the alphabet writes package-level state, caller-supplied objects or instance fields outside a struct that holds its own mutex, no interleaving of these operations can race on such state (the mutex-guarded remoteKeySet is explored by C13)",
 		"fields of a struct that itself holds a sync.Mutex/RWMutex are assumed to be guarded by it and are not compared (listed under c20_info.mutex_guarded_struct_types_not_compared)",
 		"below a struct that itself holds a sync.Once, the first initialisation of a leaf (zero value or absent -> value) is taken to be that Once's lazy initialisation and accepted; every later change of such a leaf is judged like any other write (whether the lazily cached value is RIGHT for every later request is the business of the behavioural checks, e.g. C08/C19 with request-derived issuers)",
 		"channels, sync.Mutex/RWMutex/Once/WaitGroup, atomic integers/flags and structs of third-party packages (otel tracer, chi router, gorilla/schema coders, html/template, slog, go-jose signer, x/oauth2 internals) are not walked: by pointer they are compared by identity, by value they are skipped (c20_info.not_walked_types)",
 		"sync.Map, atomic.Value and atomic.Pointer[T] ARE walked (entries by Range, ordered by the rendering of the key; values like any other value, third-party values by pointer identity): below a package-level variable or a caller-supplied object a changed entry is a hidden write (a memo shared by every instance of the process); below an instance they are synchronised state of that instance and are not compared (what a memo does to behaviour is judged by the differential oracle)",
-		"sync.Pool is neither walked nor compared (counted in c20_info.not_walked_types): its contents are transient by contract (dropped at any GC, Get returns any element or none); a pooled object that comes back dirty is caught where it is used, by the differential oracle and the race pass",
+		"sync.Pool is neither walked nor compared (counted in c20_info.not_walked_types, the pools found below package-level variables are named in c20_info.package_level_sync_pools): its contents cannot be listed and are transient by contract (dropped at any GC, Get returns any element or none), so the frame condition does NOT see a pooled object. A pooled object that comes back dirty is caught where it is used: by the differential oracle's request aspects (what every OTHER instance sends after the history) and by the race pass. To make that deterministic the worker processes run on ONE P (a pool has a private slot per P: only on one P does Get return what the last Put stored), and every pool found below a package-level variable is emptied between two sequences (a pooled object cannot travel into the next sequence)",
+		"failing variants of the client-side calls (kind fault-client): each constructs an instance of its OWN against a tenant whose discovery document advertises endpoints that fail in the chosen way (':${PORT}' placeholder that url.Parse / http.NewRequest reject; a host nobody serves; a host answering 503 text/plain), or against the healthy provider with an already cancelled context / with an application-defined request value holding a field the schema encoder cannot encode (the exported client.Call*Endpoint helpers take the request as `any`); it makes ONE call, which must fail (bad-url / unencodable: no request may reach the transport; transport-error / non-2xx: at least one must) - that is its effectiveness criterion in part baseline - and drops the instance. What the failure left behind is judged on the other instances only; the failing instance itself is not under the frame condition (its constructor is, as an operation of its own)",
+		"storage-fault operations (kind fault-provider, one per router): every request family of the router (discovery+keys, code flow, refresh, userinfo+introspect, revoke+end_session, client credentials, token exchange, device flow) is first run clean to learn the storage methods it calls, then once per (method, kind of error {opaque errors.New, *oidc.Error server_error}) with that method failing on every call; effective iff every planned fault fired and at least one request was refused. HOW the provider answers under a storage fault is property C10's business; here the failure is history, judged by the frame condition and on every other instance. Not part of the race pass (the fault plan sits on the shared storage)",
+		"package-level atomic integers / flags are not compared (synchronised state), but they are put back to their pristine value between two sequences like every other package-level variable",
+		"differential aspects request:*: for every client-side call a relying party / resource server / token exchanger / token source / key set can make (discovery, refresh, userinfo, key download, revoke, end session, device authorization, device token poll, client credentials, introspect, JWT-profile grant with the resource server as caller, token exchange) the probe records what the instance SENDS - method, URL, header set (Basic credentials decoded), decoded form body - and compares it with the same call of the same instance in a fresh history. Compact JWS values (client assertions, JWT-profile grants) are compared decoded and without iat/exp/nbf/jti (the fake clock of a history stands where its sleeps have put it); their lifetime exp-iat is compared. The follow-up request of a redirect belongs to the redirect policy (aspects redirects:*) and is not recorded. rp.CodeExchange is not probed: x/oauth2 caches the detected auth style inside the instance's oauth2.Config (synchronised third-party state of that instance), so its first request legitimately depends on the instance's own history",
 		"http.DefaultClient of the standard library is tracked like a package-level variable of the repository (profile.NewJWTProfileTokenSource* hand it to the HTTP helpers by default)",
 		"differential probe of a provider / LegacyServer: one code flow of the JWT-access-token client against the instance's OWN storage through the paths the application configured; the ID token and the access token must verify against the key the instance's own key endpoint publishes under the token's kid and carry the instance's issuer - compared with the same instance in a fresh history. The constructor alphabet holds providers whose storages use the SAME key id as every other storage (sig-1) with other key material (ES256) and with another algorithm (RS256)",
 		"redirect probes: the first request of the probed call is answered 302, the redirected request with a canned 400 (the probe counts requests; none of the probed calls retries); before and after each probe the checker waits (synctest.Wait) until the goroutines the library started (key download) are finished - a remote key set clears its in-flight marker only after it has woken the caller",
@@ -928,7 +1003,7 @@ func TestCheck(t *testing.T) {
 				return engine.OK(r.Rule, r.Outcome)
 			}
 		}})
-	harvest()
+	harvest(false)
 
 	// One E1 part per sequence length, shortest first. A replay stops at its first
 	// violation, so a sequence that extends an already violating sequence is decided
@@ -959,20 +1034,38 @@ func TestCheck(t *testing.T) {
 		shared[k] = r
 		smu.Unlock()
 	}
-	ops := names[1:]
-	for L := 0; L <= depth; L++ {
+	// the regular operations (every sequence up to the depth bound) and the failing variants of the
+	// client-side calls (fault plus history; bounded products, see below)
+	var ops, faultAll, faultCore []string
+	for _, o := range world.Ops {
+		switch {
+		case !strings.HasPrefix(o.Kind, "fault-"):
+			ops = append(ops, o.Name)
+		default:
+			faultAll = append(faultAll, o.Name)
+			if o.Core {
+				faultCore = append(faultCore, o.Name)
+			}
+		}
+	}
+	// runSeq: one E1 part = oracle x full product of the given per-position alphabets. A replay stops
+	// at its first violation, so a sequence that extends an already violating sequence is decided
+	// by that prefix: it is not executed again (counted in pruned_extensions). Parts run shortest
+	// first, so every proper prefix of a sequence has been judged by an earlier part.
+	runSeq := func(part string, alph ...[]string) {
+		L := len(alph)
 		space := engine.Space{engine.D("oracle", "frame", "diff")}
 		for i := 1; i <= L; i++ {
-			space = append(space, engine.D(fmt.Sprintf("op%d", i), ops...))
+			space = append(space, engine.D(fmt.Sprintf("op%d", i), alph[i-1]...))
 		}
 		seqOf := func(v engine.Vec) []string {
 			seq := make([]string, 0, L)
 			for i := 1; i < len(v); i++ {
-				seq = append(seq, ops[v[i]])
+				seq = append(seq, alph[i-1][v[i]])
 			}
 			return seq
 		}
-		c.RunE1(engine.E1{Part: fmt.Sprintf("sequences-len%d", L), Space: space, K: len(space),
+		c.RunE1(engine.E1{Part: part, Space: space, K: len(space),
 			Skip: func(v engine.Vec) bool {
 				if L < 2 {
 					return false
@@ -992,7 +1085,7 @@ func TestCheck(t *testing.T) {
 				return func(v engine.Vec) engine.Result {
 					oracle, seq := space[0].Vals[v[0]], seqOf(v)
 					// every proper prefix was judged (and found clean, else this vector was pruned) by
-					// the part of the previous length: only the last step still has to be judged
+					// an earlier part: only the last step still has to be judged
 					from := 0
 					if L >= 2 && c.ReplayFile == "" {
 						from = L
@@ -1042,8 +1135,32 @@ func TestCheck(t *testing.T) {
 					return res
 				}
 			}})
-		harvest()
+		harvest(false)
 	}
+	faultSel := engine.Pick(c, faultCore, faultAll)
+	for L := 0; L <= depth; L++ {
+		alph := make([][]string, L)
+		for i := range alph {
+			alph[i] = ops
+		}
+		runSeq(fmt.Sprintf("sequences-len%d", L), alph...)
+		switch L {
+		case 1:
+			// every failing variant alone: the failure, then the probes on every OTHER instance
+			runSeq("fault-sequences-len1", faultAll)
+		case 2:
+			// a failure followed by any operation, and any operation followed by a failure
+			runSeq("fault-sequences-len2(fault,op)", faultSel, ops)
+			runSeq("fault-sequences-len2(op,fault)", ops, faultSel)
+			if c.Thorough() {
+				runSeq("fault-sequences-len2(fault,fault)", faultAll, faultAll)
+			}
+		case 3:
+			// history, then a failure, then any operation (the core failing operations)
+			runSeq("fault-sequences-len3(op,fault,op)", ops, faultCore, ops)
+		}
+	}
+	harvest(true)
 	c.Extra("pruned_extensions_of_violating_prefix", pruned)
 	c.Extra("sequence_executions", executions)
 
